@@ -430,6 +430,7 @@ Why(C, X, e) ==
        [] e.k = "shut-recancel" -> "shut-recancel-unexpected"
        [] e.k = "late-hang" -> "no-progress-explicit-shutdown"
        [] e.k = "late-exc" -> "shutdown-raises"
+       [] e.k = "build-exc" -> "build-raises"
        [] OTHER -> "unknown-event"
 
 (* evaluated as a state constraint: prints, never prunes *)
